@@ -90,6 +90,8 @@ func (vc *VC) doRecv(st *State, ch, x Term, cond string) {
 	vc.set(st, "G_chlog", traceSort, sx("ite", cond, sx("tsnoc", lg, "11", ch.S, val, tag, "str_empty"), lg))
 	if x.Sort == "Iface" {
 		pooled := vc.get(st, "G_pooled", "(Array Int Bool)")
+		// while it travels through the channel a pointer belongs to nobody (its sender gave it up)
+		vc.assume(implies(and(cond, vc.pointerTagTest(tag)), sx("select", pooled, val)))
 		vc.set(st, "G_pooled", "(Array Int Bool)", sx("ite", and(cond, vc.pointerTagTest(tag)), sx("store", pooled, val, "false"), pooled))
 	}
 	if inv, _ := vc.chanItemInv(st, ch, x); inv != "" {
